@@ -387,6 +387,10 @@ def explore(ctx, exe_san, exe, variant, cov, dist):
             cov["evaluations"] += 1
             if r.get("exe") == "sched_run":
                 sites_seen.update(r.get("sites") or [])
+            for call, place in sched.discipline(r):
+                kd = "%s %s the critical section" % (call, place)
+                dist.setdefault("signalling_discipline_observed", {})
+                dist["signalling_discipline_observed"][kd] = dist["signalling_discipline_observed"].get(kd, 0) + 1
             st = (r["M"] or {}).get("status", "crash")
             dist["status"][st] = dist["status"].get(st, 0) + 1
             dist["connections_on_low_descriptors"] = dist.get("connections_on_low_descriptors", 0) + \
